@@ -45,6 +45,9 @@ func c11ExprKits() map[string]*ast.Node {
 		"call-null":       ast.Method(ast.Num("5"), "push", ast.Num("1")),
 		// the truncated divisor is zero although the divisor is not (3.4)
 		"mod-fraction": ast.Bin("%", ast.Num("7"), ast.Num("0.5")),
+		// a failing call whose argument is a call of a function that itself makes a call on another line
+		"printf-kind-after-call-argument": ast.Call(ast.Id("printf"), ast.Str("%s|"), ast.Call(ast.Id("c11len"), ast.Str("ab"))),
+		"call-number-after-call-argument": ast.Call(ast.Num("5"), ast.Call(ast.Id("c11len"), ast.Arr(ast.Num("1")))),
 		// a fault anchored at a bare $
 		"dollar-call-null": ast.Method(ast.Mem(ast.Dollar(), "c11none"), "nosuch"),
 	}
@@ -251,6 +254,7 @@ func c11Base(t *rapid.T) *DCase {
 	// every program gets a function for the json kit and a BEGIN rule that prints first
 	items := []*ast.Node{
 		ast.Func("c11fun", nil, ast.Block(ast.Return(ast.Num("1")))),
+		ast.Func("c11len", []string{"c11v"}, ast.Block(ast.ExprS(ast.Set(ast.Id("c11w"), ast.Method(ast.Id("c11v"), "length"))), ast.Return(ast.Id("c11w")))),
 		ast.Func("c11m", []string{"c11s", "c11p"}, ast.Block(ast.Return(ast.Bin("~", ast.Id("c11s"), ast.Id("c11p"))))),
 		ast.Rule("BEGIN", nil, ast.Block(ast.Print(ast.Str("start")))),
 	}
@@ -417,7 +421,7 @@ func genC11Splice(t *rapid.T) *C11Splice {
 	fallback := false
 	switch recipe {
 	case "illegal-char":
-		ch := rapid.SampledFrom([]string{"@", "^", "?", "`", "&", "|", "\\", "\x01", "\x7f"}).Draw(t, "char")
+		ch := rapid.SampledFrom([]string{"@", "^", "?", "`", "&", "|", "\\", "\x01", "\x7f", "\x00", "\x00"}).Draw(t, "char")
 		// any token boundary, the very end included; never directly in front of a
 		// separator's neighbour inside a string (tokens are atomic, so no such place exists)
 		at := rapid.IntRange(0, len(r.Toks)).Draw(t, "boundary")
@@ -517,7 +521,7 @@ func genC11Splice(t *rapid.T) *C11Splice {
 
 func TestC11(t *testing.T) {
 	rec := start(t, "C11", "fault_enumeration",
-		"(a) syntax splice: a valid, terminating program whose BEGIN rule prints first (from the C07/C08/C19 generators) x a splice position (any token boundary for illegal characters; any statement start, filtered by context, for the others) x a recipe that is a syntax error by the grammar: illegal character, stray ) ] => : , }, return at rule level, break/continue outside any loop, invalid assignment targets (1 = 2, \"s\" = 2, a + b = 2, [a] = 2, (a == b) = 2, true = 1), unterminated string or regex, unbalanced {. Oracle: outcome SyntaxError and not one byte of output. (b) runtime fault injection: one expression slot of the program (chosen uniformly over slot kinds: rule pattern, expression statement, operand slots, call / printf argument, array element, object value, index expression, member base, if / while condition, for init / condition / post, for-in iterable, match subject / literal pattern / case body, return value, print argument, assignment and compound-assignment value, short-circuit right operand, selector) is replaced by one of 19 fault kits, or a statement kit (11) is inserted at a statement position (rule, function, loop, match block). Oracle: refjq runs the faulted program: if the slot is reached the run must end in RuntimeError with exactly the output produced before; if the slot is dead the program must behave as without the fault. Non-trivial: (a) always; (b) the fault is reached after >= 1 line was printed and >= 1 further line would have followed. distinct = (kit, slot kind, program).")
+		"(a) syntax splice: a valid, terminating program whose BEGIN rule prints first (from the C07/C08/C19 generators) x a splice position (any token boundary for illegal characters; any statement start, filtered by context, for the others) x a recipe that is a syntax error by the grammar: illegal character, stray ) ] => : , }, return at rule level, break/continue outside any loop, invalid assignment targets (1 = 2, \"s\" = 2, a + b = 2, [a] = 2, (a == b) = 2, true = 1), unterminated string or regex, unbalanced {. Oracle: outcome SyntaxError and not one byte of output. (b) runtime fault injection: one expression slot of the program (chosen uniformly over slot kinds: rule pattern, expression statement, operand slots, call / printf argument, array element, object value, index expression, member base, if / while condition, for init / condition / post, for-in iterable, match subject / literal pattern / case body, return value, print argument, assignment and compound-assignment value, short-circuit right operand, selector) is replaced by one of 21 fault kits, or a statement kit (11) is inserted at a statement position (rule, function, loop, match block). Oracle: refjq runs the faulted program: if the slot is reached the run must end in RuntimeError with exactly the output produced before; if the slot is dead the program must behave as without the fault. Non-trivial: (a) always; (b) the fault is reached after >= 1 line was printed and >= 1 further line would have followed. distinct = (kit, slot kind, program).")
 	defer rec.Finish()
 	rec.Assume("refjq decides whether the faulted slot is evaluated; every kit is a runtime error by the documents (division by zero, calling a non-function, invalid regex, comparing containers, unknown $-variable, bad printf arguments, missing method arguments, index before the start, invalid escape, copying a function, iterating a non-iterable, storing a member on a scalar, string index on an array, index beyond the fill limit)")
 	rec.Replayer("fault", func(raw json.RawMessage) error {
